@@ -34,6 +34,18 @@ def _resolve_table(module, node, depth=0):
         for st in module.tree.body:
             if isinstance(st, ast.Assign) and any(isinstance(t, ast.Name) and t.id == node.id for t in st.targets):
                 return _resolve_table(module, st.value, depth + 1)
+    if isinstance(node, ast.Attribute) and isinstance(node.value, ast.Name) and depth < 3:
+        # a table hoisted into a class attribute: self.Transients / GramStack.Transients (bound once in a class body of this
+        # module and never assigned through an instance)
+        found = []
+        for c in module.tree.body:
+            if isinstance(c, ast.ClassDef) and (node.value.id in ("self", "cls") or node.value.id == c.name):
+                for st in c.body:
+                    if isinstance(st, ast.Assign) and any(isinstance(t, ast.Name) and t.id == node.attr for t in st.targets):
+                        found.append(st.value)
+        rebound = any(isinstance(x, ast.Attribute) and x.attr == node.attr and isinstance(x.ctx, ast.Store) for x in ast.walk(module.tree))
+        if len(found) == 1 and not rebound:
+            return _resolve_table(module, found[0], depth + 1)
     return None
 
 
